@@ -921,13 +921,14 @@ func (w *plWorld) probe() bool {
 }
 
 type plRtspSub struct {
-	conn  *MemConn
-	cs    *rtsp.ServerCommandSession
-	url   string
-	buf   []byte
-	cseq  int
-	state int // 1 DESCRIBE sent, 2 playing, 9 gave up
-	obs   *plRtspObs
+	conn     *MemConn
+	cs       *rtsp.ServerCommandSession
+	url      string
+	buf      []byte
+	cseq     int
+	state    int // 1 DESCRIBE sent, 2 playing, 9 gave up
+	rtpBytes int
+	obs      *plRtspObs
 }
 
 func (c *plRtspSub) request(method, uri, extra string) {
@@ -948,6 +949,7 @@ func (c *plRtspSub) responses() (resps []string) {
 			if len(c.buf) < 4+n {
 				return
 			}
+			c.rtpBytes += n
 			c.buf = c.buf[4+n:]
 			continue
 		}
@@ -1094,6 +1096,7 @@ func plRunScenario(w *plWorld, sc *plScenario, amap map[string]*plDef, emit func
 	hook := hv.(*plHook)
 	cons := map[string]*plConsumer{}
 	var tsSubs []*httpts.SubSession
+	var tsConns []*MemConn
 	var rtspSubs []*plRtspSub
 	sent := []plSent{}
 	join := func(suffix string) {
@@ -1113,7 +1116,9 @@ func plRunScenario(w *plWorld, sc *plScenario, amap map[string]*plDef, emit func
 		}
 		if on("ts") {
 			u, _ := base.ParseUrl("http://h/live/"+stream+".ts", 80)
-			ss := httpts.NewSubSession(NewMemConn("t"+suffix), u, false, "")
+			tc := NewMemConn("t" + suffix)
+			tsConns = append(tsConns, tc)
+			ss := httpts.NewSubSession(tc, u, false, "")
 			sm.OnNewHttptsSubSession(ss)
 			tsSubs = append(tsSubs, ss)
 		}
@@ -1372,7 +1377,21 @@ func plRunScenario(w *plWorld, sc *plScenario, amap map[string]*plDef, emit func
 		sm.VerifTick(1)
 	})
 	w.hooks.Delete(stream)
-	emit(M{"ev": "End", "obs": observe(nil, stalled, 0)})
+	// not judged: how far the remuxing consumers got (reported as coverage by the check)
+	info := M{"rtspPlaying": 0, "rtspBytes": 0, "tsBytes": 0}
+	for _, r := range rtspSubs {
+		if r.state == 2 {
+			info["rtspPlaying"] = info["rtspPlaying"].(int) + 1
+		}
+		info["rtspBytes"] = info["rtspBytes"].(int) + r.rtpBytes
+	}
+	for _, tc := range tsConns {
+		out, _ := tc.Drain()
+		if k := bytes.Index(out, []byte("\r\n\r\n")); k >= 0 {
+			info["tsBytes"] = info["tsBytes"].(int) + len(out) - k - 4
+		}
+	}
+	emit(M{"ev": "End", "obs": observe(nil, stalled, 0), "info": info})
 	return !stalled
 }
 
